@@ -371,7 +371,11 @@ func (c *gctx) valueNode(i int, self string, depth int, isProp bool, label strin
 		if len(perm) > 2 && c.draw(0, 2, label+"Three") == 0 {
 			cnt = 3
 		}
-		n = &ref.SNode{Kind: ref.SRef, Names: perm[:cnt]}
+		names := append([]string(nil), perm[:cnt]...)
+		if c.draw(0, 5, label+"Dup") == 0 {
+			names = append(names, names[0]) // the same type named twice: @a | @b | @a
+		}
+		n = &ref.SNode{Kind: ref.SRef, Names: names}
 	case k == 6 && len(scal) > 0: // literal with {type: "@T"}
 		tn := rapid.SampledFrom(scal).Draw(c.t, label+"TT")
 		tt := c.g.Types[tn]
